@@ -374,6 +374,13 @@ def run_insert(ctx, shapes, max_new, deadline, faults=False):
                                     [(f"side[{i}]", b) for i, (_, b) in enumerate(f.env.get("sides", []))])
                 vals["side_items"] = [m.eval(x, model_completion=True).as_long() if x is not None else None
                                       for x, _ in f.env.get("sides", [])]
+                # code that looks at margins itself instead of asking D::side
+                zero32 = z3.FPVal(0.0, z3.Float32())
+                vals["margin_items"] = [m.eval(x, model_completion=True).as_long() if (x is not None and z3.is_expr(x)) else x
+                                        for x in f.env.get("margin_items", [])]
+                vals["margin_signs"] = [1 if z3.is_true(m.eval(z3.fpGT(x, zero32), model_completion=True)) else
+                                        (-1 if z3.is_true(m.eval(z3.fpLT(x, zero32), model_completion=True)) else 0)
+                                        for x in f.env.get("margins", [])]
                 results["violations"].append({"shape": shape.name, "clause": v["clause"], "pre": pre, "values": vals})
         results["shapes"].append({"shape": shape.name, "paths": len(finals), "ok_paths": n_ok})
     results["queries"], results["solver_s"] = eng.queries, round(eng.solver_s, 2)
@@ -662,6 +669,9 @@ def build_scenario(kind, v):
                 b = vals.get(f"side[{i}]")
                 s = signs.setdefault(it, [])
                 s.append(1 if b else -1)
+            for it, sg in zip(vals.get("margin_items", []), vals.get("margin_signs", [])):
+                if it is not None:
+                    signs.setdefault(it, []).append(sg)      # 0 = exactly on the plane
             add_signs = {it: (s + [1, 1])[:2] for it, s in signs.items()}
             return scenario(pre, vals, adds=adds, split_after=sa, add_signs=add_signs, check_capacity=True)
         if kind == "delete":
